@@ -12,7 +12,7 @@ These utilities are for expanding free indices in expressions to explicit fixed 
 # Modified by Anders Logg, 2009.
 
 from ufl.algorithms.transformer import ReuseTransformer, apply_transformer
-from ufl.classes import Terminal
+from ufl.classes import Terminal, Variable
 from ufl.constantvalue import Zero
 from ufl.core.multiindex import FixedIndex, Index, MultiIndex
 from ufl.differentiation import Grad
@@ -42,6 +42,23 @@ class IndexExpander(ReuseTransformer):
                 raise ValueError("Component size mismatch.")
             return x[c]
         return x
+
+    def variable(self, x):
+        """Apply to variable.
+
+        The expansion depends on the current component and index values,
+        so previously transformed variables can only be reused for the
+        same component and index values (not by label alone).
+        """
+        e, l = x.ufl_operands  # noqa: E741
+        index_values = tuple(sorted((i.count(), v) for i, v in self._index2value.items()))
+        key = (l, self.component(), index_values)
+        v = self._variable_cache.get(key)
+        if v is None:
+            e2 = self.visit(e)
+            v = x if e == e2 else Variable(e2, l)
+            self._variable_cache[key] = v
+        return v
 
     def form_argument(self, x):
         """Apply to form_argument."""
